@@ -6,6 +6,7 @@ import (
 	"crypto/sha256"
 	"fmt"
 	"math/big"
+	"strings"
 	"sync"
 	"time"
 
@@ -92,10 +93,26 @@ func inter(parent *pki.Cert, kind string, depth int) *pki.Cert {
 	if c, ok := inters[key]; ok {
 		return c
 	}
-	k := keys.Pick(kind, depth+1)
+	k := keys.Pick(strings.TrimSuffix(kind, "-nonull"), depth+1)
+	if strings.HasSuffix(kind, "-nonull") {
+		k = noNullRSA(k)
+	}
 	c := pki.Issue(parent, pki.CATemplate("World CA "+key, k, int64(1000+len(inters)), pki.KeyID(parent.Key)), key)
 	inters[key] = c
 	return c
+}
+
+// noNullRSA returns the RSA key with a SubjectPublicKeyInfo whose AlgorithmIdentifier omits the NULL
+// parameters: not what RFC 3279 prescribes, but seen in the wild; the lenient parser accepts it with a
+// non-fatal error, and everything derived from the key (the issuer key hash of a precertificate entry) has to
+// use these very bytes.
+func noNullRSA(k *keys.Key) *keys.Key {
+	n := derx.MustParse(k.SPKI)
+	alg := n.Children[0]
+	c := *k
+	c.Name = k.Name + "-nonull"
+	c.SPKI = derx.Seq(derx.Seq(alg.Children[0].Raw(k.SPKI)), n.Children[1].Raw(k.SPKI))
+	return &c
 }
 
 var crossCAs = map[string]*pki.Cert{}
@@ -109,7 +126,10 @@ func crossCA(root *pki.Cert, kind string) *pki.Cert {
 	if c, ok := crossCAs[key]; ok {
 		return c
 	}
-	k := keys.Pick(kind, 1)
+	k := keys.Pick(strings.TrimSuffix(kind, "-nonull"), 1)
+	if strings.HasSuffix(kind, "-nonull") {
+		k = noNullRSA(k)
+	}
 	c := pki.Issue(root, pki.CATemplate("World Cross CA "+kind, k, int64(3000+len(crossCAs)), pki.KeyID(root.Key)), "cross/"+kind)
 	crossCAs[key] = c
 	return c
@@ -300,6 +320,10 @@ func GenSpecX(t *rapid.T, label string) ChainSpec {
 		s.RootTwin = 1
 	case 1:
 		s.RootTwin = 2
+	}
+	if len(s.Inters) > 0 && rapid.IntRange(0, 7).Draw(t, label+".nonull") == 0 {
+		// the issuing CA's RSA key is encoded without the NULL algorithm parameters
+		s.Inters[len(s.Inters)-1] = "rsa2048-nonull"
 	}
 	if rapid.IntRange(0, 15).Draw(t, label+".rootonly") == 0 {
 		s = ChainSpec{ID: s.ID, Root: s.Root, RootOnly: true, IncludeRoot: true}
